@@ -50,6 +50,15 @@ def rebuild(c, memo):
     return f
 
 
+def level_view(c):
+    """digest of what a cell reports about its levels (mask, hashes and depths at levels 1..3): part of its observable value"""
+    try:
+        m = bytes([c.level_mask.mask]) + b''.join(c.get_hash(l) + c.get_depth(l).to_bytes(2, 'big') for l in (1, 2, 3))
+    except Exception as e:
+        m = type(e).__name__.encode()
+    return list(hashlib.sha256(m).digest()[:8])
+
+
 class Unobservable(Exception):
     pass
 
@@ -120,14 +129,14 @@ class Pool:
                 p['room'] = [o.remaining_bits, o.remaining_refs]
             if kind == 'cell':
                 p['d'] = o.get_depth(3)
-                p['h'] = list(o.hash)
+                p['h'] = list(o.hash) + level_view(o)
                 if id(o) in self.opaque:
                     p['s'], p['fh'], p['fs'] = [], p['h'], []
                 else:
                     p['s'] = list(hashlib.sha256(o.to_boc()).digest())
                     # the same value rebuilt from scratch (fresh objects, no call history): results must agree
                     f = rebuild(o, {})
-                    p['fh'] = list(f.hash)
+                    p['fh'] = list(f.hash) + level_view(f)
                     p['fs'] = list(hashlib.sha256(f.to_boc()).digest())
             out.append(p)
         return out
@@ -272,7 +281,14 @@ class Pool:
             for v in (d or {}).values():
                 drain(v)
             d2 = cell.begin_parse().load_hashmap(c['w'])
-            return {'n': len(d or {}), 'n2': len(d2 or {})}
+            # the object route, twice, the values of the first result read to the end in between: the second result is as fresh
+            view = lambda mp: hashlib.sha256(repr(sorted((k, len(v.bits), v.bits.to01()) for k, v in mp.items())).encode()).hexdigest()[:16]
+            m1 = HashMap.from_cell(cell, c['w']).map
+            v1 = view(m1)
+            for v in m1.values():
+                drain(v)
+            v2 = view(HashMap.from_cell(cell, c['w']).map)
+            return {'n': len(d or {}), 'n2': len(d2 or {}), 'first': v1, 'second': v2}
         if kind == 'dict_via_holder':
             sl = Builder().store_dict(cell).end_cell().begin_parse()
             a = sl.preload_dict(c['w'])
@@ -396,6 +412,9 @@ def var_menu(L, signed, rng):
     return inr, out
 
 
+_ACCOUNTS = []
+
+
 def rand_addr(rng, kind=None):
     kind = kind or rng.choice(['none', 'ext', 'ext0', 'std', 'std', 'any', 'any30'])
     if kind == 'none':
@@ -408,6 +427,13 @@ def rand_addr(rng, kind=None):
         return {'kind': 'ext', 'len': ln, 'v': big(v)}
     a = {'kind': 'std', 'wc': rng.choice([-128, -1, 0, 1, 127, rng.randint(-128, 127)]),
          'hash': [rng.getrandbits(8) for _ in range(32)], 'any': []}
+    # the same account keeps coming back in other forms (plain, other anycast prefixes, as text): what is written depends on the
+    # form given NOW, not on the form the account had when it was first seen
+    if len(_ACCOUNTS) < 6:
+        _ACCOUNTS.append((a['wc'], list(a['hash'])))
+    elif rng.random() < 0.5:
+        a['wc'], a['hash'] = rng.choice(_ACCOUNTS)
+        a['hash'] = list(a['hash'])
     if kind in ('any', 'any30'):
         d = 30 if kind == 'any30' else rng.choice([1, 2, 5, 29])
         a['any'] = [{'depth': d, 'pfx': big(rng.getrandbits(d))}]
